@@ -2153,3 +2153,408 @@ Proof.
     + apply obytes_eqb_eq in EU. now symmetry.
     + unfold obytes_eqb in EU. rewrite EU in EH. simpl in EH. discriminate EH.
 Qed.
+
+(* ---------------------------------------------------------------------------------- *)
+(* deepening: the acceptor's comparisons are equalities; accepted => the recorded        *)
+(* requests ARE the requests of the model's call, in order                               *)
+(* ---------------------------------------------------------------------------------- *)
+
+Lemma opt_eqb_eq {A} (eqb : A -> A -> bool) : (forall x y, eqb x y = true -> x = y) ->
+  forall a b, opt_eqb eqb a b = true -> a = b.
+Proof. intros H [x|] [y|]; simpl; try discriminate; auto. intros E. f_equal. auto. Qed.
+
+Lemma list_eqb_eq {A} (eqb : A -> A -> bool) : (forall x y, eqb x y = true -> x = y) ->
+  forall a b, list_eqb eqb a b = true -> a = b.
+Proof.
+  intros H. induction a as [|x a IH]; intros [|y b]; simpl; try discriminate; [reflexivity|].
+  intros E. apply andb_true_iff in E. destruct E as [E1 E2]. f_equal; auto.
+Qed.
+
+Lemma N_eqb_eq' x y : N.eqb x y = true -> x = y. Proof. apply N.eqb_eq. Qed.
+Lemma Z_eqb_eq' x y : Z.eqb x y = true -> x = y. Proof. apply Z.eqb_eq. Qed.
+Lemma bytes_eqb_eq' x y : bytes_eqb x y = true -> x = y. Proof. apply bytes_eqb_eq. Qed.
+Lemma obytes_eqb_eq' x y : obytes_eqb x y = true -> x = y. Proof. apply obytes_eqb_eq. Qed.
+Lemma bool_eqb_eq' x y : Bool.eqb x y = true -> x = y. Proof. apply Bool.eqb_prop. Qed.
+
+Lemma exec_frame_eqb_eq a b : exec_frame_eqb a b = true -> a = b.
+Proof.
+  unfold exec_frame_eqb. rewrite !andb_true_iff. intros [[[[[[[[H1 H2] H3] H4] H5] H6] H7] H8] H9].
+  destruct a, b; simpl in *.
+  apply bytes_eqb_eq' in H1, H3. apply obytes_eqb_eq' in H2, H7. apply N_eqb_eq' in H4.
+  apply (opt_eqb_eq _ N_eqb_eq') in H5, H6. apply (opt_eqb_eq _ Z_eqb_eq') in H8. apply bool_eqb_eq' in H9.
+  congruence.
+Qed.
+
+Lemma bfitem_eqb_eq a b : bfitem_eqb a b = true -> a = b.
+Proof.
+  destruct a, b; simpl; try discriminate.
+  - intros H. apply andb_true_iff in H. destruct H as [H1 H2]. apply bytes_eqb_eq' in H1, H2. congruence.
+  - intros H. apply N_eqb_eq' in H. congruence.
+Qed.
+
+Lemma request_eqb_eq a b : request_eqb a b = true -> a = b.
+Proof.
+  destruct a, b; simpl; try discriminate.
+  - intros H. f_equal. now apply exec_frame_eqb_eq.
+  - intros H. f_equal. now apply N_eqb_eq'.
+  - unfold batch_frame_eqb. rewrite !andb_true_iff. intros [[[[H1 H2] H3] H4] H5].
+    destruct f, f0; simpl in *. apply (list_eqb_eq _ bfitem_eqb_eq) in H1. apply N_eqb_eq' in H2, H3.
+    apply (opt_eqb_eq _ N_eqb_eq') in H4. apply (opt_eqb_eq _ Z_eqb_eq') in H5. congruence.
+Qed.
+
+(* one delivered response (and the reload that may follow) makes the call send exactly one request
+   if it is waiting afterwards, none otherwise *)
+Lemma recv_push ST ext cells cs r sto cs' oq :
+  call_recv ST ext cells cs r = Some (sto, cs', oq) ->
+  (waiting cs' = true /\ exists q, oq = Some q) \/ (waiting cs' = false /\ oq = None).
+Proof.
+  intros H. destruct cs; simpl in H; try discriminate.
+  - destruct (resp_parse_fails _ _ r); [inversion H; subst; right; auto|].
+    destruct r; inversion H; subst; simpl; eauto.
+  - destruct r; try (inversion H; subst; right; auto; fail).
+    destruct (negb _); inversion H; subst; right; auto.
+  - destruct (resp_parse_fails _ _ r); inversion H; subst; right; auto.
+  - destruct r; try (inversion H; subst; right; auto; fail).
+    destruct (find_prepared _ _ _); inversion H; subst; simpl; eauto.
+  - destruct r; try (inversion H; subst; right; auto; fail).
+    destruct (negb _); inversion H; subst; simpl; eauto.
+Qed.
+
+Lemma resp_tick_push ST st c r st1 :
+  gstep ST st (GL_resp c r) = Some st1 ->
+  let st2 := g_tick_if_needed ST st1 c in
+  (waiting (k_st (g_calls st2 c)) = true /\ exists e, k_sent (g_calls st2 c) = e :: k_sent (g_calls st c)) \/
+  (waiting (k_st (g_calls st2 c)) = false /\ k_sent (g_calls st2 c) = k_sent (g_calls st c)).
+Proof.
+  simpl. destruct (call_recv ST (k_ext (g_calls st c)) (g_cells st) (k_st (g_calls st c)) r) as [[[sto cs] oq]|] eqn:E; [|discriminate].
+  destruct (apply_store st sto) as [cells ann]. intros H; inversion H; subst; clear H.
+  unfold g_tick_if_needed. cbn [g_calls k_st]. rewrite upd_same. cbn [k_st].
+  destruct (recv_push _ _ _ _ _ _ _ _ E) as [[W [q ->]]|[W ->]].
+  - destruct cs; simpl in W; try discriminate; cbn [g_calls k_st k_sent]; rewrite ?upd_same; cbn [k_st k_sent]; left; split; eauto.
+  - destruct cs; simpl in W; try discriminate; cbn [g_calls k_st k_sent]; rewrite ?upd_same; cbn [k_st k_sent]; try (right; split; reflexivity).
+    (* CS_resend: the tick sends the second EXECUTE *)
+    simpl. rewrite !upd_same. simpl. rewrite !upd_same. simpl. left. split; eauto.
+Qed.
+
+Lemma g_feed_positional ST : forall xs st c pos out st',
+  g_feed ST st c pos xs out = V_ok st' ->
+  match xs with
+  | [] => k_sent (g_calls st' c) = k_sent (g_calls st c)
+  | x :: r =>
+      exists q om rest new,
+        k_sent (g_calls st c) = (q, om) :: rest /\ q = x_req x /\
+        k_sent (g_calls st' c) = new ++ k_sent (g_calls st c) /\
+        rev (map fst new) = map x_req r
+  end.
+Proof.
+  induction xs as [|x r IH]; intros st c pos out st' H; cbn [g_feed] in H.
+  - destruct (k_st (g_calls st c)) eqn:E; simpl in H; try discriminate.
+    destruct (obs_out_eqb _ _); [|discriminate]. now inversion H.
+  - destruct (negb (waiting (k_st (g_calls st c)))); [discriminate|].
+    destruct (last_sent st c) as [q|] eqn:LS; [|discriminate].
+    destruct (request_eqb q (x_req x)) eqn:RQ; [|discriminate].
+    destruct (gstep ST st (GL_resp c (x_resp x))) as [st1|] eqn:G; [|discriminate].
+    unfold last_sent in LS. destruct (k_sent (g_calls st c)) as [|[q0 om] rest] eqn:KS; [discriminate|].
+    inversion LS; subst q0. apply request_eqb_eq in RQ.
+    pose proof (resp_tick_push _ _ _ _ _ G) as PUSH. cbv zeta in PUSH. rewrite KS in PUSH.
+    specialize (IH _ _ _ _ _ H).
+    exists q, om, rest.
+    destruct r as [|y r'].
+    + (* no further exchange: the call is finished, nothing more was sent *)
+      rewrite IH.
+      assert (ND : waiting (k_st (g_calls (g_tick_if_needed ST st1 c) c)) = false).
+      { cbn [g_feed] in H. destruct (k_st (g_calls (g_tick_if_needed ST st1 c) c)); simpl in H; try discriminate; reflexivity. }
+      destruct PUSH as [[W _]|[_ E]]; [congruence|]. exists []. rewrite E. auto.
+    + destruct IH as [q1 [om1 [rest1 [new1 [K1 [Q1 [K' R']]]]]]].
+      destruct PUSH as [[_ [e E]]|[_ E]].
+      * rewrite E in K1. inversion K1; subst e rest1. exists (new1 ++ [(q1, om1)]).
+        split; [reflexivity|]. split; [assumption|]. split.
+        -- rewrite K', E, <- app_assoc. reflexivity.
+        -- rewrite map_app, rev_app_distr. simpl. rewrite R', Q1. reflexivity.
+      * (* nothing was sent although the call goes on: the acceptor would compare the same request
+           again, but then the call is not waiting *)
+        exfalso. cbn [g_feed] in H.
+        assert (W : waiting (k_st (g_calls (g_tick_if_needed ST st1 c) c)) = true).
+        { destruct (negb (waiting (k_st (g_calls (g_tick_if_needed ST st1 c) c)))) eqn:EW; [discriminate|].
+          now apply negb_false_iff in EW. }
+        pose proof (resp_tick_push _ _ _ _ _ G) as P2. cbv zeta in P2. rewrite KS in P2.
+        destruct P2 as [[_ [e2 E2]]|[W2 _]]; [|congruence].
+        rewrite E2 in E. apply (f_equal (@List.length _)) in E. simpl in E. lia.
+Qed.
+
+Definition op_requests (st : gstate) (c : nat) (o : top) : Prop :=
+  match o with
+  | TO_exec _ _ _ xs _ | TO_batch _ _ _ xs _ => map fst (k_sent (g_calls st c)) = rev (map x_req xs)
+  | TO_event _ _ => True
+  end.
+
+Lemma g_feed_fresh_requests ST st c q0 om0 xs out st' :
+  k_sent (g_calls st c) = [(q0, om0)] -> waiting (k_st (g_calls st c)) = true ->
+  g_feed ST st c O xs out = V_ok st' ->
+  map fst (k_sent (g_calls st' c)) = rev (map x_req xs).
+Proof.
+  intros KS W H. pose proof (g_feed_positional ST xs st c O out st' H) as P.
+  destruct xs as [|x r].
+  - exfalso. cbn [g_feed] in H. destruct (k_st (g_calls st c)); simpl in W, H; discriminate.
+  - destruct P as [q [om [rest [new [K1 [Q1 [K' R']]]]]]]. rewrite KS in K1. inversion K1; subst.
+    rewrite K', KS, map_app. simpl. rewrite <- R', rev_involutive. reflexivity.
+Qed.
+
+Lemma g_accept_op_requests ST st c o st' :
+  g_accept_op ST st c o = V_ok st' -> op_requests st' c o.
+Proof.
+  destruct o as [nd ext a xs out|nd ext b xs out|nd e]; simpl; [| |auto].
+  - destruct (k_st (g_calls st c)) eqn:E; try discriminate. intros H.
+    eapply g_feed_fresh_requests; [| |exact H]; simpl; rewrite upd_same; reflexivity.
+  - destruct (k_st (g_calls st c)) eqn:E; try discriminate. intros H.
+    eapply g_feed_fresh_requests; [| |exact H]; simpl; rewrite upd_same; reflexivity.
+Qed.
+
+Lemma g_accept_requests ST : forall tr st c c' st',
+  g_accept ST st c tr = (c', V_ok st') ->
+  forall i o, nth_error tr i = Some o -> op_requests st' (c + i) o.
+Proof.
+  induction tr as [|o r IH]; intros st c c' st' H; simpl in H.
+  - intros [|i] o HH; discriminate.
+  - destruct (g_accept_op ST st c o) as [st1| | | |] eqn:E; try (inversion H; fail).
+    destruct (g_accept_op_sound _ _ _ _ _ E) as [_ HM]. pose proof (g_accept_op_requests _ _ _ _ _ E) as HQ.
+    destruct (g_accept_sound ST _ _ _ _ _ H) as [[ls2 Hrun2] _].
+    intros [|i] o' Hn; simpl in Hn.
+    + inversion Hn; subst o'. rewrite Nat.add_0_r.
+      pose proof (op_matches_done _ _ _ HM) as Hd.
+      destruct o; try exact I; destruct Hd as [oc Hd]; unfold op_requests in *;
+        rewrite (done_final_run _ _ _ _ _ _ Hrun2 Hd); exact HQ.
+    + replace (c + Datatypes.S i)%nat with (Datatypes.S c + i)%nat by lia. eapply IH; eassumption.
+Qed.
+
+(* C14_ok_sound: what an accepted history says about the RECORDED requests, responses and outcomes *)
+Lemma accepted_sentences ST init tr c' st' :
+  g_accept ST (ginit init) O tr = (c', V_ok st') ->
+  forall i nd ext a xs out, nth_error tr i = Some (TO_exec nd ext a xs out) ->
+  let s := ST (xa_stmt a) in
+  (forall i0 pm r, map x_resp xs = [RUnprepared i0; RPrepared (s_id s) pm; r] ->
+     exists m1 m2,
+       let f1 := mk_exec_frame s ext a m1 in
+       let f2 := mk_exec_frame s ext a m2 in
+       map x_req xs = [Q_execute f1; Q_prepare (s_text s); Q_execute f2] /\
+       (f_id f2 = s_id s /\ f_id f2 = f_id f1 /\ f_values f2 = f_values f1 /\ f_cons f2 = f_cons f1 /\
+        f_serial f2 = f_serial f1 /\ f_page_size f2 = f_page_size f1 /\ f_paging f2 = f_paging f1 /\
+        f_ts f2 = f_ts f1) /\
+       obs_out_eqb (obs_of_outcome (outcome_of ext (cp_cached ext (xa_use_cached a) m2) r)) out = true) /\
+  (forall i0 id pm, map x_resp xs = [RUnprepared i0; RPrepared id pm] -> id <> s_id s ->
+     obs_out_eqb (OB_err E_IdChanged) out = true /\
+     exists m, map x_req xs = [Q_execute (mk_exec_frame s ext a m); Q_prepare (s_text s)]) /\
+  (forall f, In (Q_execute f) (map x_req xs) ->
+     exists m, f = mk_exec_frame s ext a m /\ (m = init (xa_stmt a) \/ In m (g_ann st' (xa_stmt a))) /\
+               (f_skip f = true -> m_count m <> 0)) /\
+  (forall cols pg rows t, out = OB_rows cols pg rows t ->
+     exists m b pre,
+       map x_resp xs = pre ++ [RRows b] /\
+       (m = init (xa_stmt a) \/ In m (g_ann st' (xa_stmt a))) /\
+       last (map x_req xs) (Q_prepare 0) = Q_execute (mk_exec_frame s ext a m) /\
+       match rb_meta b with
+       | RM_full _ sent => cols = sent
+       | RM_none _ => if f_skip (mk_exec_frame s ext a m) then cols = m_cols m else cols = []
+       end).
+Proof.
+  intros H i nd ext a xs out Hn s.
+  destruct (g_accept_sound ST _ _ _ _ _ H) as [[ls Hrun] HM].
+  pose proof (HM i _ Hn) as M. pose proof (g_accept_requests ST _ _ _ _ _ H i _ Hn) as Q.
+  simpl in M, Q. destruct M as [Hx [He [Hr [_ [oc [Hd Ho]]]]]].
+  assert (GR : greach ST init st') by (exists ls; exact Hrun).
+  set (k := g_calls st' i) in *.
+  assert (RQ : map x_req xs = rev (map fst (k_sent k))) by (rewrite Q, rev_involutive; reflexivity).
+  assert (RR : map x_resp xs = rev (k_rcvd k)) by (rewrite Hr, rev_involutive; reflexivity).
+  split; [|split; [|split]].
+  - intros i0 pm r E. rewrite RR in E. apply (f_equal (@rev resp)) in E. rewrite rev_involutive in E. simpl in E.
+    destruct (transparent ST init st' i a i0 pm r GR Hx E) as [m1 [m2 [S1 [S2 S3]]]]. fold k in S1, S2, S3.
+    rewrite He in S1, S2, S3. exists m1, m2. cbv zeta. split; [rewrite RQ, S1; reflexivity|]. split; [exact S2|].
+    rewrite S3 in Hd. inversion Hd; subst oc. exact Ho.
+  - intros i0 id pm E Hne. rewrite RR in E. apply (f_equal (@rev resp)) in E. rewrite rev_involutive in E. simpl in E.
+    destruct (id_changed ST init st' i a i0 id pm GR Hx E Hne) as [S1 S2]. fold k in S1.
+    rewrite S1 in Hd. inversion Hd; subst oc. split; [exact Ho|].
+    destruct (S2 [] st' eq_refl) as [m Hm]. fold k in Hm. rewrite He in Hm. exists m. rewrite RQ, Hm. reflexivity.
+  - intros f HI. rewrite RQ in HI. apply in_rev in HI. apply in_map_iff in HI. destruct HI as [[q om] [E HI]].
+    simpl in E. subst q. fold k in HI.
+    destruct (never_skip_with_empty ST init st' i f om GR HI) as [a' [m [Hx' [-> [Hf [Hs _]]]]]].
+    fold k in Hx'. rewrite Hx in Hx'. inversion Hx'; subst a'. fold k in Hf. rewrite He in Hf.
+    exists m. split; [exact Hf|]. split.
+    + pose proof (reach_cell_inv _ _ _ GR) as [_ _ HC]. eapply (HC i a); eassumption.
+    + intros SK. apply (Hs SK).
+  - intros cols pg rows t ->.
+    destruct oc as [u pg' nr cl| |e]; simpl in Ho; try discriminate.
+    destruct (decode_meta ST init st' i a u pg' nr cl GR Hx Hd) as [m [b [rs [rr [Hs [Hrc [_ [_ [_ [Hm Hu]]]]]]]]]].
+    fold k in Hs, Hrc, Hu. rewrite He in Hs, Hu. fold s in Hu.
+    apply andb_true_iff in Ho. destruct Ho as [Ho _]. apply andb_true_iff in Ho. destruct Ho as [Ho _].
+    apply andb_true_iff in Ho. destruct Ho as [Ho _]. apply list_eqb_col_eq in Ho.
+    exists m, b, (rev rr). split; [rewrite RR, Hrc; reflexivity|]. split; [exact Hm|]. split.
+    + rewrite RQ, Hs. simpl. rewrite last_last. reflexivity.
+    + destruct (rb_meta b) as [n|nid sent].
+      * destruct (f_skip _).
+        -- destruct Hu as [-> _]. now symmetry.
+        -- subst u. now symmetry.
+      * subst u. now symmetry.
+Qed.
+
+(* every step of the specification system leaves the generic part alone or is one generic step *)
+Lemma sstep_g D ST ns st l st' :
+  sstep D ST ns st l = Some st' ->
+  s_g st' = s_g st \/ exists gl, gstep ST (s_g st) gl = Some (s_g st').
+Proof.
+  destruct l as [c nd a|c nd b|c p|c|c|nd e]; unfold sstep.
+  - destruct (gstep ST (s_g st) (GL_exec c (n_ext (s_nodes st nd)) a)) eqn:E; [|discriminate].
+    intros H; inversion H; subst; simpl. right; eauto.
+  - destruct (gstep ST (s_g st) (GL_batch c (n_ext (s_nodes st nd)) b)) eqn:E; [|discriminate].
+    intros H; inversion H; subst; simpl. right; eauto.
+  - destruct (s_out st c); [|discriminate]. destruct (node_answer _ _ _ _ _ _) as [[n' r0] enc].
+    intros H; inversion H; subst; simpl. now left.
+  - destruct (s_inbox st c) as [[[r0 enc] p0]|]; [|discriminate].
+    destruct (gstep ST (s_g st) (GL_resp c r0)) eqn:E; [|discriminate].
+    intros H; inversion H; subst; simpl. right; eauto.
+  - destruct (gstep ST (s_g st) (GL_tick c)) eqn:E; [|discriminate].
+    intros H; inversion H; subst; simpl. right; eauto.
+  - intros H; inversion H; subst; simpl. now left.
+Qed.
+
+Lemma srun_g D ST ns init : forall ls st st',
+  srun D ST ns st ls = Some st' -> greach ST init (s_g st) -> greach ST init (s_g st').
+Proof.
+  induction ls as [|l r IH]; intros st st' H HG; simpl in H.
+  - now inversion H; subst.
+  - destruct (sstep D ST ns st l) as [s1|] eqn:E; [|discriminate].
+    eapply IH; [eassumption|]. destruct (sstep_g _ _ _ _ _ _ E) as [->|[gl G]]; [assumption|].
+    eapply greach_step; eassumption.
+Qed.
+
+Lemma s_accept_sound2 D ST ns init nodes tr c' st' :
+  s_accept D ST ns (sinit init nodes) O tr = (c', V_ok st') ->
+  (exists ls, srun D ST ns (sinit init nodes) ls = Some st') /\ greach ST init (s_g st').
+Proof.
+  intros H. destruct (s_accept_sound _ _ _ _ _ _ _ _ H) as [ls Hl]. split; [eauto|].
+  eapply srun_g; [eassumption|]. exists []. reflexivity.
+Qed.
+
+(* ---------------------------------------------------------------------------------- *)
+(* liveness caveat of the batch loop, as a statement about the model: for every n there  *)
+(* is a schedule in which one BATCH call has sent n+1 BATCH frames and is still running   *)
+(* ---------------------------------------------------------------------------------- *)
+Fixpoint evict_forever (c : nat) (id : bytes) (pm : meta) (n : nat) : list glabel :=
+  match n with
+  | O => []
+  | Datatypes.S k => GL_resp c (RUnprepared id) :: GL_resp c (RPrepared id pm) :: evict_forever c id pm k
+  end.
+
+Lemma batch_loop_unbounded ST init c ext s v pm n :
+  let b := mkB [BI_prep s v] 0 1 None None in
+  exists st,
+    grun ST (ginit init) (GL_batch c ext b :: evict_forever c (s_id (ST s)) pm n) = Some st /\
+    k_st (g_calls st c) = CS_batch b /\
+    List.length (filter (fun e => match fst e with Q_batch _ => true | _ => false end) (k_sent (g_calls st c))) = Datatypes.S n.
+Proof.
+  intros b.
+  assert (G : forall n st, k_st (g_calls st c) = CS_batch b ->
+            exists st', grun ST st (evict_forever c (s_id (ST s)) pm n) = Some st' /\
+              k_st (g_calls st' c) = CS_batch b /\
+              List.length (filter (fun e => match fst e with Q_batch _ => true | _ => false end) (k_sent (g_calls st' c))) =
+              (n + List.length (filter (fun e => match fst e with Q_batch _ => true | _ => false end) (k_sent (g_calls st c))))%nat).
+  { induction n0 as [|k IH]; intros st Hst.
+    - exists st. simpl. auto.
+    - cbn [evict_forever grun].
+      assert (S1 : exists st1, gstep ST st (GL_resp c (RUnprepared (s_id (ST s)))) = Some st1 /\
+                   k_st (g_calls st1 c) = CS_bprep b s /\
+                   k_sent (g_calls st1 c) = (Q_prepare (s_text (ST s)), None) :: k_sent (g_calls st c)).
+      { simpl. rewrite Hst. simpl. rewrite bytes_eqb_refl. eexists. split; [reflexivity|]. simpl. rewrite upd_same. simpl. auto. }
+      destruct S1 as [st1 [G1 [K1 S1]]]. rewrite G1.
+      assert (S2 : exists st2, gstep ST st1 (GL_resp c (RPrepared (s_id (ST s)) pm)) = Some st2 /\
+                   k_st (g_calls st2 c) = CS_batch b /\
+                   k_sent (g_calls st2 c) = (Q_batch (mk_batch_frame ST b), None) :: k_sent (g_calls st1 c)).
+      { simpl. rewrite K1. simpl. rewrite bytes_eqb_refl. simpl.
+        destruct (apply_store st1 _) as [cells ann]. eexists. split; [reflexivity|]. simpl. rewrite upd_same. simpl. auto. }
+      destruct S2 as [st2 [G2 [K2 S2]]]. rewrite G2.
+      destruct (IH st2 K2) as [st' [R [K L]]]. exists st'. split; [exact R|]. split; [exact K|].
+      rewrite L, S2, S1. simpl. lia. }
+  cbn [grun]. simpl. destruct (G n (mkG init (upd (fun _ => idle_call) c (mkC ext None (CS_batch b) [(Q_batch (mk_batch_frame ST b), None)] [])) (fun _ => [])))
+    as [st' [R [K L]]].
+  { simpl. rewrite upd_same. reflexivity. }
+  exists st'. split; [exact R|]. split; [exact K|]. rewrite L. simpl. rewrite upd_same. simpl. lia.
+Qed.
+
+(* ---------------------------------------------------------------------------------- *)
+(* Session::prepare                                                                      *)
+(* ---------------------------------------------------------------------------------- *)
+Lemma first_prepared_in rs id m : first_prepared rs = Some (id, m) -> In (RPrepared id m) rs.
+Proof.
+  induction rs as [|r rs IH]; simpl; [discriminate|].
+  destruct r; try (intros H; right; now apply IH). intros H; inversion H; subst. now left.
+Qed.
+
+Lemma first_prepared_none rs : first_prepared rs = None <-> forall id m, ~ In (RPrepared id m) rs.
+Proof.
+  induction rs as [|r rs IH]; simpl.
+  - split; [intros _ id m []|reflexivity].
+  - destruct r; try (rewrite IH; split; [intros H id0 m0 [E|HI]; [discriminate|now apply (H id0 m0)] | intros H id0 m0 HI; apply (H id0 m0); now right]).
+    split; [discriminate|]. intros H. exfalso. apply (H id m). now left.
+Qed.
+
+(* the statement returned is one a node announced, and every node that prepared it did so under
+   that id; different ids => PreparedStatementIdsMismatch; nobody => AllAttemptsFailed *)
+Lemma prepare_on_all_spec rs :
+  match prepare_on_all rs with
+  | Ok (id, m) => In (RPrepared id m) rs /\ forall id' m', In (RPrepared id' m') rs -> id' = id
+  | Err PE_AllFailed => forall id m, ~ In (RPrepared id m) rs
+  | Err PE_IdsMismatch => exists id m id' m', In (RPrepared id m) rs /\ In (RPrepared id' m') rs /\ id <> id'
+  end.
+Proof.
+  unfold prepare_on_all. destruct (first_prepared rs) as [[id m]|] eqn:E.
+  - pose proof (first_prepared_in _ _ _ E) as HI.
+    destruct (forallb (same_prepared_id id) rs) eqn:F.
+    + split; [assumption|]. intros id' m' HI'. rewrite forallb_forall in F. specialize (F _ HI'). simpl in F.
+      now apply bytes_eqb_eq in F.
+    + assert (exists r, In r rs /\ same_prepared_id id r = false) as [r [Hr Hf]].
+      { clear -F. induction rs as [|x rs IH]; simpl in F; [discriminate|].
+        apply andb_false_iff in F. destruct F as [F|F]; [exists x; split; [now left|assumption]|].
+        destruct (IH F) as [r [A B]]. exists r. split; [now right|assumption]. }
+      destruct r; simpl in Hf; try discriminate. exists id, m, id0, m0. repeat split; try assumption.
+      intros EE. subst. now rewrite bytes_eqb_refl in Hf.
+  - now apply first_prepared_none.
+Qed.
+
+(* the acceptor: the observation is what [prepare_on_all] returns for the recorded answers with an
+   accepted answer moved to the front (an order the connection iterator may have had) *)
+Lemma prep_accept_sound rs o : prep_accept rs o = true ->
+  match o with
+  | PO_ok id cols => exists m, In (RPrepared id m) rs /\ m_cols m = cols /\
+                               prepare_on_all (RPrepared id m :: rs) = Ok (id, m)
+  | PO_err e => prepare_on_all rs = Err e
+  end.
+Proof.
+  destruct o as [id cols|[|]]; simpl.
+  - intros H. apply andb_true_iff in H. destruct H as [H1 H2]. apply existsb_exists in H1.
+    destruct H1 as [r [HI Hr]]. destruct r; try discriminate. apply andb_true_iff in Hr. destruct Hr as [A B].
+    apply bytes_eqb_eq in A. subst id0. apply list_eqb_col_eq in B. exists m. split; [assumption|]. split; [assumption|].
+    unfold prepare_on_all. simpl. rewrite bytes_eqb_refl, H2. reflexivity.
+  - unfold prepare_on_all. destruct (first_prepared rs) as [[i m]|]; [discriminate|reflexivity].
+  - unfold prepare_on_all. destruct (first_prepared rs) as [[i m]|]; [|discriminate].
+    intros H. apply negb_true_iff in H. now rewrite H.
+Qed.
+
+Lemma session_prep_accept_sound rs1 rs2 o : session_prep_accept rs1 rs2 o = true ->
+  match rs2, o with
+  | None, PO_ok id cols => exists m, In (RPrepared id m) rs1 /\ m_cols m = cols /\
+                                     forall r2, session_prepare (RPrepared id m :: rs1) r2 = Ok (id, m)
+  | None, PO_err _ => False
+  | Some r2, PO_ok id cols => exists e m, prepare_on_all rs1 = Err e /\ In (RPrepared id m) r2 /\ m_cols m = cols /\
+                                          session_prepare rs1 (RPrepared id m :: r2) = Ok (id, m)
+  | Some r2, PO_err e => exists e1, prepare_on_all rs1 = Err e1 /\ session_prepare rs1 r2 = Err e
+  end.
+Proof.
+  unfold session_prep_accept, session_prepare. destruct rs2 as [r2|].
+  - intros H. apply andb_true_iff in H. destruct H as [H1 H2].
+    assert (E1 : exists e1, prepare_on_all rs1 = Err e1).
+    { apply orb_true_iff in H1. destruct H1 as [H1|H1]; apply prep_accept_sound in H1; eauto. }
+    destruct E1 as [e1 E1]. pose proof (prep_accept_sound _ _ H2) as S2. destruct o as [id cols|e].
+    + destruct S2 as [m [A [B C]]]. exists e1, m. rewrite E1. auto.
+    + exists e1. rewrite E1. auto.
+  - destruct o as [id cols|e]; [|discriminate]. intros H. destruct (prep_accept_sound _ _ H) as [m [A [B C]]].
+    exists m. split; [assumption|]. split; [assumption|]. intros r2. now rewrite C.
+Qed.
